@@ -14,59 +14,162 @@ RULE = ("rejection kind (13 + 8 read-side variants + up to 15 further variants o
         "rejections that surface while columns are written, so that the failed write has gone past the length of "
         "the old footer}; oracle: the call raises and a fresh ParquetFile of "
         "the pre-existing dataset reads exactly the previous content; non-trivial = the operation was attempted on "
-        "an existing dataset and raised")
+        "an existing dataset and raised. "
+        "Reviewer extensions: existing dataset also {hive and hive-partitioned directory WITHOUT _metadata / "
+        "_common_metadata (files found by listing the directory), single file and hive dataset whose columns are "
+        "stored REQUIRED with a categorical and a JSON column}; mode also {handle: ParquetFile.write_row_groups on a "
+        "handle the caller keeps, given a frame or an iterable of frames; overwrite: append='overwrite'}; rejection "
+        "kinds also {missing value under the STORED non-nullable schema: None in a text column, None / pd.NA in an "
+        "integer column, NaN code in a categorical; set under the stored JSON encoding; partition_on omitted / "
+        "superset / given as text; drill requested on a hive dataset; append='overwrite' on a single file or an "
+        "unpartitioned dataset; unknown column in has_nulls; unknown filter column as a later AND condition / in a "
+        "later OR group}; offending column also {the partition column}; offending row also {a row of the second "
+        "partition group}; history: after every rejected append / handle call a valid frame is appended the same "
+        "way and the dataset must then hold exactly old + new rows; oracle also: row order, columns, dtypes, "
+        "count, number of row groups and the bytes of every file that existed before the call are unchanged, the "
+        "kept handle reads the previous content, and the exception is not a programming-error type")
 ASSUMPTIONS = ["orphan files left by a rejected call are allowed here (C09 forbids them)",
-               "a rejected read must leave the handle usable"]
+               "a rejected read must leave the handle usable",
+               "files that did not exist before the rejected call are ignored by the byte comparison",
+               "AttributeError / NameError / UnboundLocalError / AssertionError / ImportError / RecursionError are "
+               "crashes, not refusals"]
+
 
 DATASETS = ["simple1", "simple3", "hive", "hive_part"]
+# directory datasets without summary files: the part files are found by listing the directory
+NOMETA = ["hive_nometa", "hive_part_nometa"]
+# every column stored REQUIRED; k categorical, j JSON-encoded
+REQ = ["simple_req", "hive_req"]
 WRITE_REJECTIONS = ["complex_dtype", "int_colname", "dup_names", "none_required", "mixed_object", "int_as_utf8",
                     "diff_columns", "diff_scheme", "diff_partition", "bad_codec", "bad_times", "bad_object_encoding"]
 READ_REJECTIONS = ["unknown_column", "unknown_filter_column", "unknown_index", "unknown_category", "head_unknown",
-                   "iter_unknown", "count_unknown_filter", "rowfilter_unknown"]
+                   "iter_unknown", "count_unknown_filter", "rowfilter_unknown",
+                   # the unknown column is not the only / first condition
+                   "filter_later_and", "filter_later_or", "count_filter_later_or", "iter_filter_later_or",
+                   "rowfilter_later_or"]
 # further variants of the listed kinds (thorough tier; EXTRA_QUICK also in the quick tier)
 EXTRA_UPFRONT = ["period_dtype", "interval_dtype", "object_sets", "tuple_colname", "none_colname", "bytes_colname",
-                 "extra_column", "missing_column", "partition_missing_col"]
+                 "extra_column", "missing_column", "partition_missing_col", "has_nulls_unknown",
+                 "partition_omitted", "partition_superset", "partition_str", "diff_scheme_drill"]
 EXTRA_LATE = ["Int64_na_required", "boolean_na_required", "decl_int_str", "decl_bytes_str", "json_set", "decimal_str"]
-EXTRA_QUICK = ["period_dtype", "tuple_colname", "extra_column", "missing_column", "Int64_na_required", "json_set"]
+EXTRA_QUICK = ["period_dtype", "tuple_colname", "extra_column", "missing_column", "Int64_na_required", "json_set",
+               "partition_missing_col", "has_nulls_unknown", "partition_omitted", "partition_superset",
+               "partition_str", "diff_scheme_drill"]
+APPEND_ONLY = ("extra_column", "missing_column", "partition_omitted", "partition_superset", "partition_str",
+               "diff_scheme_drill")
 # rejections that can surface while columns are being written (after bytes have gone to the file)
 LATE = ("complex_dtype", "none_required", "mixed_object", "int_as_utf8", "bad_codec")
+# what ParquetFile.write_row_groups can be asked directly (it has no has_nulls / object_encoding / scheme arguments)
+HANDLE_REJECTIONS = ["complex_dtype", "mixed_object", "int_as_utf8", "bad_codec", "json_set", "diff_columns",
+                     "extra_column", "missing_column", "dup_names", "int_colname"]
+# rejections under the stored schema of the REQ datasets
+REQ_REJECTIONS = ["req_none_text", "req_none_int", "req_NA_Int64", "req_nan_cat", "req_json_set"]
+OVERWRITE_LATE = ["complex_dtype", "mixed_object", "int_as_utf8", "bad_codec", "diff_columns"]
 BIG = 600
+CRASHLIKE = ("AttributeError", "NameError", "UnboundLocalError", "AssertionError", "ImportError",
+             "ModuleNotFoundError", "RecursionError")
+
+
+def _write_points(ds, tier, modes, pts):
+    """the original product (and its reviewer extensions of column / row position) for one dataset"""
+    partitioned = ds.startswith("hive_part")
+    for rej in WRITE_REJECTIONS:
+        for mode in modes:
+            if mode == "replace" and rej.startswith("diff_"):
+                continue
+            colposs = ["first", "middle", "last"]
+            if rej in ("complex_dtype", "mixed_object", "int_as_utf8") and mode == "append":
+                # the frame's true last column, which is the partition column of the partitioned datasets
+                colposs.append("partition")
+            for colpos in colposs:
+                if rej in ("diff_columns", "diff_scheme", "diff_partition", "bad_times", "bad_object_encoding",
+                           "int_colname", "dup_names") and colpos != "first":
+                    continue
+                rowposs = ["rg0", "later"]
+                if partitioned and mode == "append" and colpos != "partition" and rej in ("mixed_object", "int_as_utf8"):
+                    # the offending row in the SECOND partition group: the first group's file is complete then
+                    rowposs += ["rg0_p1", "later_p1"]
+                for rowpos in rowposs:
+                    if rej not in ("none_required", "mixed_object", "int_as_utf8") and rowpos != "rg0":
+                        continue
+                    pts.append({"ds": ds, "rej": rej, "mode": mode, "colpos": colpos, "rowpos": rowpos})
+                    if rej in LATE:
+                        # a frame large enough for the failed write to have gone past the old footer's length
+                        pts.append({"ds": ds, "rej": rej, "mode": mode, "colpos": colpos, "rowpos": rowpos,
+                                    "size": BIG})
+    for rej in EXTRA_UPFRONT + EXTRA_LATE:
+        if tier != "thorough" and rej not in EXTRA_QUICK:
+            continue
+        for mode in modes:
+            if mode == "replace" and rej in APPEND_ONLY:
+                continue
+            if mode == "append" and rej in ("period_dtype", "interval_dtype", "object_sets", "has_nulls_unknown"):
+                # an append converts with the stored schema and does not look at the new frame's dtypes or at
+                # has_nulls: these are refusals of a fresh write only
+                continue
+            for colpos in (("first", "last") if rej in EXTRA_LATE or rej.endswith("_dtype") or rej == "object_sets" else ("first",)):
+                pts.append({"ds": ds, "rej": rej, "mode": mode, "colpos": colpos, "rowpos": "rg0"})
+                if rej in EXTRA_LATE and tier == "thorough":
+                    pts.append({"ds": ds, "rej": rej, "mode": mode, "colpos": colpos, "rowpos": "later", "size": BIG})
+
+
+def _handle_points(ds, tier, pts):
+    for rej in HANDLE_REJECTIONS:
+        late = rej in LATE or rej == "json_set"
+        for it in (False, True):
+            for colpos in (("first", "middle", "last") if late else ("first",)):
+                for rowpos in (("rg0", "later") if rej in ("mixed_object", "int_as_utf8", "json_set") or (it and not late) else ("rg0",)):
+                    if it and not late and rowpos == "later" and rej in ("dup_names", "int_colname"):
+                        continue
+                    for size in ((6, BIG) if late and rej != "json_set" and (tier == "thorough" or colpos == "middle") else (6,)):
+                        pt = {"ds": ds, "rej": rej, "mode": "handle", "colpos": colpos, "rowpos": rowpos}
+                        if it:
+                            pt["iter"] = True
+                        if size != 6:
+                            pt["size"] = size
+                        pts.append(pt)
 
 
 def points(tier):
     pts = []
     for ds in DATASETS:
-        for rej in WRITE_REJECTIONS:
-            for mode in ("append", "replace"):
-                if mode == "replace" and rej.startswith("diff_"):
-                    continue
-                for colpos in ("first", "middle", "last"):
-                    if rej in ("diff_columns", "diff_scheme", "diff_partition", "bad_times", "bad_object_encoding",
-                               "int_colname", "dup_names") and colpos != "first":
-                        continue
-                    for rowpos in ("rg0", "later"):
-                        if rej not in ("none_required", "mixed_object", "int_as_utf8") and rowpos == "later":
-                            continue
-                        pts.append({"ds": ds, "rej": rej, "mode": mode, "colpos": colpos, "rowpos": rowpos})
-                        if rej in LATE:
-                            # a frame large enough for the failed write to have gone past the old footer's length
-                            pts.append({"ds": ds, "rej": rej, "mode": mode, "colpos": colpos, "rowpos": rowpos,
-                                        "size": BIG})
-        for rej in EXTRA_UPFRONT + EXTRA_LATE:
-            if tier != "thorough" and rej not in EXTRA_QUICK:
-                continue
-            for mode in ("append", "replace"):
-                if mode == "replace" and rej in ("extra_column", "missing_column"):
-                    continue
-                if mode == "append" and rej in ("period_dtype", "interval_dtype", "object_sets"):
-                    # an append converts with the stored schema and does not look at the new frame's dtypes: these
-                    # are refusals of a fresh write only
-                    continue
-                for colpos in (("first", "last") if rej in EXTRA_LATE or rej.endswith("_dtype") or rej == "object_sets" else ("first",)):
-                    pts.append({"ds": ds, "rej": rej, "mode": mode, "colpos": colpos, "rowpos": "rg0"})
-                    if rej in EXTRA_LATE and tier == "thorough":
-                        pts.append({"ds": ds, "rej": rej, "mode": mode, "colpos": colpos, "rowpos": "later", "size": BIG})
+        _write_points(ds, tier, ("append", "replace"), pts)
         for rej in READ_REJECTIONS:
+            pts.append({"ds": ds, "rej": rej, "mode": "read", "colpos": "first", "rowpos": "rg0"})
+    # ---- reviewer extensions -------------------------------------------------------------------------------
+    for ds in NOMETA:
+        # replacing such a directory is the same code as replacing "hive": appends and reads only
+        _write_points(ds, tier, ("append",), pts)
+        for rej in READ_REJECTIONS:
+            pts.append({"ds": ds, "rej": rej, "mode": "read", "colpos": "first", "rowpos": "rg0"})
+    for ds in DATASETS + NOMETA:
+        _handle_points(ds, tier, pts)
+        # append='overwrite'
+        if ds.startswith("hive_part"):
+            for rej in OVERWRITE_LATE:
+                late = rej != "diff_columns"
+                for colpos in (("first", "middle", "last") if late else ("first",)):
+                    for rowpos in (("rg0", "later", "rg0_p1") if rej in ("mixed_object", "int_as_utf8") else ("rg0",)):
+                        for size in ((6, BIG) if late and (tier == "thorough" or colpos == "middle") else (6,)):
+                            pt = {"ds": ds, "rej": rej, "mode": "overwrite", "colpos": colpos, "rowpos": rowpos}
+                            if size != 6:
+                                pt["size"] = size
+                            pts.append(pt)
+        else:
+            pts.append({"ds": ds, "rej": "overwrite_unsupported", "mode": "overwrite", "colpos": "first",
+                        "rowpos": "rg0"})
+    for ds in REQ:
+        for rej in REQ_REJECTIONS:
+            for mode in ("append", "handle"):
+                for rowpos in ("rg0", "later"):
+                    for size in (6, BIG):
+                        if size == BIG and mode == "handle" and tier != "thorough":
+                            continue
+                        pt = {"ds": ds, "rej": rej, "mode": mode, "colpos": "first", "rowpos": rowpos}
+                        if size != 6:
+                            pt["size"] = size
+                        pts.append(pt)
+        for rej in ("unknown_column", "filter_later_or"):
             pts.append({"ds": ds, "rej": rej, "mode": "read", "colpos": "first", "rowpos": "rg0"})
     return pts
 
@@ -79,18 +182,22 @@ def crash_sig(point, res):
     return {"ds": point["ds"], "rej": point["rej"], "mode": point["mode"], "symptom": res["outcome"]}
 
 
-def base_frame(n=6, start=0):
+def base_frame(n=6, start=0, req=False):
     import pandas as pd
-    return pd.DataFrame({"a": pd.Series(range(start, start + n), dtype="int64"),
-                         "b": pd.Series(["s%d" % i for i in range(start, start + n)], dtype=object),
-                         "c": pd.Series([float(i) for i in range(start, start + n)], dtype="float64"),
-                         "p": pd.Series([i % 2 for i in range(start, start + n)], dtype="int64")})
+    df = pd.DataFrame({"a": pd.Series(range(start, start + n), dtype="int64"),
+                       "b": pd.Series(["s%d" % i for i in range(start, start + n)], dtype=object),
+                       "c": pd.Series([float(i) for i in range(start, start + n)], dtype="float64"),
+                       "p": pd.Series([i % 2 for i in range(start, start + n)], dtype="int64")})
+    if req:
+        df["k"] = pd.Categorical(["k%d" % (i % 3) for i in range(start, start + n)], categories=["k0", "k1", "k2"])
+        df["j"] = pd.Series([{"q": i} for i in range(start, start + n)], dtype=object)
+    return df
 
 
 def create(ds, d):
     import os
     import fastparquet
-    df = base_frame()
+    df = base_frame(req=ds in REQ)
     if ds == "simple1":
         path = os.path.join(d, "t.parquet")
         fastparquet.write(path, df, write_index=False)
@@ -99,22 +206,74 @@ def create(ds, d):
         path = os.path.join(d, "t.parquet")
         fastparquet.write(path, df, row_group_offsets=[0, 2, 4], write_index=False)
         return path, {"file_scheme": "simple"}
-    if ds == "hive":
+    if ds == "simple_req":
+        path = os.path.join(d, "t.parquet")
+        fastparquet.write(path, df, row_group_offsets=[0, 3], write_index=False, has_nulls=False,
+                          object_encoding={"b": "utf8", "j": "json"})
+        return path, {"file_scheme": "simple"}
+    if ds == "hive_req":
+        path = os.path.join(d, "dsr")
+        fastparquet.write(path, df, file_scheme="hive", row_group_offsets=[0, 3], write_index=False, has_nulls=False,
+                          object_encoding={"b": "utf8", "j": "json"})
+        return path, {"file_scheme": "hive"}
+    if ds in ("hive", "hive_nometa"):
         path = os.path.join(d, "ds")
         fastparquet.write(path, df, file_scheme="hive", row_group_offsets=[0, 3], write_index=False)
-        return path, {"file_scheme": "hive"}
-    path = os.path.join(d, "dsp")
-    fastparquet.write(path, df, file_scheme="hive", partition_on=["p"], row_group_offsets=[0, 3], write_index=False)
-    return path, {"file_scheme": "hive", "partition_on": ["p"]}
+        okw = {"file_scheme": "hive"}
+    else:
+        path = os.path.join(d, "dsp")
+        fastparquet.write(path, df, file_scheme="hive", partition_on=["p"], row_group_offsets=[0, 3], write_index=False)
+        okw = {"file_scheme": "hive", "partition_on": ["p"]}
+    if ds in NOMETA:
+        os.remove(os.path.join(path, "_metadata"))
+        os.remove(os.path.join(path, "_common_metadata"))
+    return path, okw
+
+
+def frame_rows(df):
+    """rows of a frame in canonical cells, columns in name order; p (possibly a category of path values) as int"""
+    from mc import oracles as O
+    cols = sorted(df.columns)
+    lists = []
+    for c in cols:
+        vals = O.series_to_list(df[c])
+        if c == "p":
+            vals = [int(x) for x in vals]
+        lists.append(vals)
+    return [tuple(r) for r in zip(*lists)]
 
 
 def content(path):
     import fastparquet
-    from mc import oracles as O
     df = fastparquet.ParquetFile(path).to_pandas()
-    rows = sorted(zip(O.series_to_list(df["a"]), O.series_to_list(df["b"]), O.series_to_list(df["c"]),
-                      [int(x) for x in O.series_to_list(df["p"])]))
-    return rows
+    return sorted(frame_rows(df), key=repr)
+
+
+def state(path):
+    """everything else a reader can see of the dataset: row order, columns, dtypes, counts"""
+    import fastparquet
+    pf = fastparquet.ParquetFile(path)
+    df = pf.to_pandas()
+    return {"order": [repr(r) for r in frame_rows(df)], "columns": [str(c) for c in df.columns],
+            "dtypes": [str(t) for t in df.dtypes], "count": int(pf.count()), "row_groups": len(pf.row_groups),
+            "num_rows": int(pf.fmd.num_rows), "file_scheme": pf.file_scheme, "cats": sorted(pf.cats)}
+
+
+def files(path):
+    """relative name -> sha256 of every file of the dataset"""
+    import os
+    import hashlib
+    out = {}
+    if os.path.isdir(path):
+        for root, _dirs, names in os.walk(path):
+            for nm in names:
+                full = os.path.join(root, nm)
+                with open(full, "rb") as f:
+                    out[os.path.relpath(full, path)] = hashlib.sha256(f.read()).hexdigest()
+    else:
+        with open(path, "rb") as f:
+            out[""] = hashlib.sha256(f.read()).hexdigest()
+    return out
 
 
 def offending(rej, colpos, rowpos, n=6):
@@ -123,8 +282,9 @@ def offending(rej, colpos, rowpos, n=6):
     import numpy as np
     df = base_frame(n, 100)
     kw = {"row_group_offsets": [0, n // 2]}
-    target = {"first": "a", "middle": "b", "last": "c"}[colpos]
-    row = 0 if rowpos == "rg0" else n // 2 + 1
+    target = {"first": "a", "middle": "b", "last": "c", "partition": "p"}[colpos]
+    # p = i % 2: rows 0 and n//2+1 are in the first partition group of their row group, 1 and n//2+2 in the second
+    row = {"rg0": 0, "later": n // 2 + 1, "rg0_p1": 1, "later_p1": n // 2 + 2}[rowpos]
     if rej == "complex_dtype":
         df[target] = pd.Series([complex(i, 1) for i in range(n)])
     elif rej == "int_colname":
@@ -174,6 +334,8 @@ def offending(rej, colpos, rowpos, n=6):
     elif rej == "partition_missing_col":
         kw["file_scheme"] = "hive"
         kw["partition_on"] = ["nope"]
+    elif rej == "has_nulls_unknown":
+        kw["has_nulls"] = ["b", "nope"]
     elif rej in ("Int64_na_required", "boolean_na_required"):
         vals = [None if i == row else (i if rej[0] == "I" else bool(i % 2)) for i in range(n)]
         df[target] = pd.array(vals, dtype="Int64" if rej[0] == "I" else "boolean")
@@ -188,19 +350,50 @@ def offending(rej, colpos, rowpos, n=6):
     return df, kw
 
 
+def offending_req(rej, rowpos, n=6):
+    """a frame of the REQ datasets' shape with one value the STORED schema cannot hold"""
+    import pandas as pd
+    import numpy as np
+    df = base_frame(n, 100, req=True)
+    row = {"rg0": 0, "later": n // 2 + 1}[rowpos]
+    if rej == "req_none_text":
+        col = df["b"].copy()
+        col[row] = None
+        df["b"] = col
+    elif rej == "req_none_int":
+        col = df["a"].astype(object)
+        col[row] = None
+        df["a"] = col
+    elif rej == "req_NA_Int64":
+        col = df["a"].astype("Int64")
+        col[row] = pd.NA
+        df["a"] = col
+    elif rej == "req_nan_cat":
+        codes = [i % 3 for i in range(n)]
+        codes[row] = -1
+        df["k"] = pd.Categorical.from_codes(codes, categories=["k0", "k1", "k2"])
+    elif rej == "req_json_set":
+        col = df["j"].copy()
+        col[row] = {1, 2}
+        df["j"] = col
+    return df, {"row_group_offsets": [0, n // 2]}
+
+
 def run(p):
     import os
-    import hashlib
     import fastparquet
     from mc.scratch import scratch
     from mc import wr
     ds, rej, mode, colpos, rowpos = p["ds"], p["rej"], p["mode"], p["colpos"], p["rowpos"]
+    req = ds in REQ
     d = scratch()
     path, okw = create(ds, d)
     before = content(path)
     sig = {"ds": ds, "rej": rej, "mode": mode, "colpos": colpos, "rowpos": rowpos}
     if p.get("size"):
         sig["size"] = p["size"]
+    if p.get("iter"):
+        sig["iter"] = True
 
     def bad(symptom, detail, **extra):
         s = dict(sig)
@@ -210,6 +403,7 @@ def run(p):
 
     if mode == "read":
         pf = fastparquet.ParquetFile(path)
+        files_before = files(path)
         try:
             if rej == "unknown_column":
                 pf.to_pandas(columns=["a", "nope"])
@@ -225,29 +419,62 @@ def run(p):
                 list(pf.iter_row_groups(columns=["b", "nope"]))
             elif rej == "count_unknown_filter":
                 pf.count(filters=[("nope", "==", 1)])
+            elif rej == "filter_later_and":
+                pf.to_pandas(filters=[("a", ">=", 0), ("nope", "==", 1)])
+            elif rej == "filter_later_or":
+                pf.to_pandas(filters=[[("a", ">=", 0)], [("a", "<", 0), ("nope", "==", 1)]])
+            elif rej == "count_filter_later_or":
+                pf.count(filters=[[("a", ">=", 0)], [("nope", "==", 1)]])
+            elif rej == "iter_filter_later_or":
+                list(pf.iter_row_groups(filters=[[("a", ">=", 0)], [("nope", "==", 1)]]))
+            elif rej == "rowfilter_later_or":
+                pf.to_pandas(filters=[[("a", ">=", 0)], [("nope", "==", 1)]], row_filter=True)
             else:
                 pf.to_pandas(filters=[("nope", "==", 1)], row_filter=True)
             return bad("not_rejected", "%s did not raise" % rej)
-        except Exception:
-            pass
+        except Exception as e:
+            if type(e).__name__ in CRASHLIKE:
+                return bad("crashlike_exception", "%s raised %s: %s" % (rej, type(e).__name__, str(e)[:160]),
+                           exc=type(e).__name__)
         try:
-            from mc import oracles as O
             again = pf.to_pandas()
-            rows = sorted(zip(O.series_to_list(again["a"]), O.series_to_list(again["b"]), O.series_to_list(again["c"]),
-                              [int(x) for x in O.series_to_list(again["p"])]))
+            rows = sorted(frame_rows(again), key=repr)
             if rows != before:
                 return bad("handle_damaged", "after the rejected read the handle returns %d rows differing from the %d before" % (len(again), len(before)))
         except Exception as e:
             return bad("handle_damaged", "after the rejected read the handle raises %s: %s" % (type(e).__name__, e))
+        if files(path) != files_before:
+            return bad("files_changed", "a rejected read changed the files of the dataset")
         return {"ok": True, "outcome": "rejected_intact", "nontrivial": True}
-    df, kw = offending(rej, colpos, rowpos, p.get("size", 6))
+
+    n = p.get("size", 6)
+    if req:
+        df, kw = offending_req(rej, rowpos, n)
+    elif rej == "overwrite_unsupported":
+        df, kw = base_frame(n, 100), {"row_group_offsets": [0, n // 2]}
+    else:
+        df, kw = offending(rej, colpos, rowpos, n)
     wkw = dict(okw)
     if rej == "diff_scheme":
         wkw["file_scheme"] = "hive" if okw["file_scheme"] == "simple" else "simple"
+    if rej == "diff_scheme_drill":
+        if not okw.get("partition_on"):
+            # without partition directories hive and drill are the same layout
+            return {"ok": True, "outcome": "not_applicable", "nontrivial": False}
+        wkw["file_scheme"] = "drill"
     if rej == "diff_partition":
         if okw["file_scheme"] == "simple":
             return {"ok": True, "outcome": "not_applicable", "nontrivial": False}
         wkw["partition_on"] = ["a"] if okw.get("partition_on") else ["p"]
+    if rej in ("partition_omitted", "partition_superset", "partition_str"):
+        if okw["file_scheme"] == "simple" or (rej == "partition_omitted" and not okw.get("partition_on")):
+            return {"ok": True, "outcome": "not_applicable", "nontrivial": False}
+        if rej == "partition_omitted":
+            wkw.pop("partition_on")
+        elif rej == "partition_superset":
+            wkw["partition_on"] = ["p", "a"]
+        else:
+            wkw["partition_on"] = "a" if okw.get("partition_on") else "p"
     wkw.update(kw)
     if mode == "append":
         wkw["append"] = True
@@ -255,7 +482,7 @@ def run(p):
         # append ignores `times` (documented): nothing to reject
         return {"ok": True, "outcome": "not_applicable", "nontrivial": False}
     if rej in ("bad_object_encoding", "none_required", "mixed_object", "int_as_utf8", "Int64_na_required",
-               "boolean_na_required", "decl_int_str", "decl_bytes_str", "json_set", "decimal_str") and mode == "append":
+               "boolean_na_required", "decl_int_str", "decl_bytes_str", "json_set", "decimal_str") and mode != "replace":
         # has_nulls / object_encoding are ignored when appending (documented): use the stored schema
         wkw.pop("has_nulls", None)
         wkw.pop("object_encoding", None)
@@ -263,8 +490,28 @@ def run(p):
             return {"ok": True, "outcome": "not_applicable", "nontrivial": False}
     if wkw.get("file_scheme") == "simple":
         wkw.pop("partition_on", None)
+    if colpos == "partition" and okw.get("partition_on") and rej == "complex_dtype":
+        # the values of a partition column only become directory names: their dtype is never converted
+        return {"ok": True, "outcome": "not_applicable", "nontrivial": False}
+
+    state_before = state(path)
+    files_before = files(path)
+    offsets = wkw.get("row_group_offsets")
+    good = base_frame(6, 200, req=req)
+    pf = None
     try:
-        fastparquet.write(path, df, write_index=False, **wkw)
+        if mode == "handle":
+            pf = fastparquet.ParquetFile(path)
+            data = df
+            if p.get("iter"):
+                data = iter([df.iloc[offsets[0]:offsets[1]], df.iloc[offsets[1]:]])
+            pf.write_row_groups(data, row_group_offsets=offsets, compression=wkw.get("compression"))
+        elif mode == "overwrite":
+            fastparquet.write(path, df, write_index=False, append="overwrite", file_scheme=okw["file_scheme"],
+                              partition_on=okw.get("partition_on", []), row_group_offsets=offsets,
+                              compression=wkw.get("compression"))
+        else:
+            fastparquet.write(path, df, write_index=False, **wkw)
         raised = None
     except Exception as e:
         raised = e
@@ -278,19 +525,65 @@ def run(p):
         # every kind enumerated here is in the property's list of operations that end in an exception
         return bad("not_rejected", "%s (%s, column %s) did not raise; the dataset now holds %d rows (had %d)" % (
             rej, mode, colpos, len(after), len(before)))
+    exc = type(raised).__name__
     try:
         after = content(path)
     except Exception as e:
         return bad("dataset_unreadable", "%s (%s, column %s, row %s) raised %s, afterwards the dataset cannot be read: %s: %s" % (
-            rej, mode, colpos, rowpos, type(raised).__name__, type(e).__name__, str(e)[:120]), exc=type(raised).__name__)
+            rej, mode, colpos, rowpos, exc, type(e).__name__, str(e)[:120]), exc=exc)
     if after != before:
         return bad("content_changed", "%s (%s) raised %s, afterwards the dataset holds %d rows (had %d)" % (
-            rej, mode, type(raised).__name__, len(after), len(before)), exc=type(raised).__name__)
-    return {"ok": True, "outcome": "rejected_intact", "nontrivial": True, "detail": type(raised).__name__}
+            rej, mode, exc, len(after), len(before)), exc=exc)
+    # ---- reviewer extensions of the oracle -----------------------------------------------------------------
+    state_after = state(path)
+    for k in state_before:
+        if state_after[k] != state_before[k]:
+            return bad("state_changed", "%s (%s) raised %s, afterwards %s of the dataset is %s (was %s)" % (
+                rej, mode, exc, k, str(state_after[k])[:120], str(state_before[k])[:120]), exc=exc, field=k)
+    files_after = files(path)
+    changed = sorted(k for k in files_before if files_after.get(k) != files_before[k])
+    if changed:
+        return bad("files_changed", "%s (%s) raised %s, afterwards the pre-existing file(s) %s are %s" % (
+            rej, mode, exc, changed[:4], "gone" if changed[0] not in files_after else "different"), exc=exc)
+    if exc in CRASHLIKE:
+        return bad("crashlike_exception", "%s (%s, column %s) was refused by a %s: %s" % (
+            rej, mode, colpos, exc, str(raised)[:160]), exc=exc)
+    if pf is not None:
+        # the handle the caller kept
+        try:
+            hrows = sorted(frame_rows(pf.to_pandas()), key=repr)
+            hstate = (int(pf.count()), len(pf.row_groups), len(pf.fmd.row_groups), int(pf.fmd.num_rows))
+        except Exception as e:
+            return bad("handle_damaged", "after the rejected write_row_groups the handle raises %s: %s" % (
+                type(e).__name__, str(e)[:120]), exc=exc)
+        want = (state_before["count"], state_before["row_groups"], state_before["row_groups"], state_before["num_rows"])
+        if hrows != before or hstate != want:
+            return bad("handle_damaged", "after the rejected write_row_groups the handle holds %d rows, (count, row "
+                       "groups, fmd row groups, num_rows) = %s; the dataset has %d rows, %s" % (
+                           len(hrows), hstate, len(before), want), exc=exc)
+    if mode in ("append", "handle"):
+        # history: the same kind of call with a valid frame must now work and add exactly its rows
+        try:
+            if mode == "handle":
+                pf.write_row_groups(good, row_group_offsets=[0, 3])
+            else:
+                fastparquet.write(path, good, write_index=False, append=True, row_group_offsets=[0, 3], **okw)
+            final = content(path)
+        except Exception as e:
+            return bad("followup_failed", "after the rejected %s (%s) a valid append raises / leaves the dataset "
+                       "unreadable: %s: %s" % (rej, mode, type(e).__name__, str(e)[:120]), exc=exc)
+        want = sorted(before + frame_rows(good), key=repr)
+        if final != want:
+            return bad("followup_wrong", "after the rejected %s (%s) and a valid append of 6 rows the dataset holds "
+                       "%d rows, expected the %d old + 6 new" % (rej, mode, len(final), len(before)), exc=exc)
+    return {"ok": True, "outcome": "rejected_intact", "nontrivial": True, "detail": exc}
 
 
 LEVEL_TEXT = ("Complete product of rejection kind x position of the offending column x position of the offending row "
-              "(i.e. how far the write gets before failing) x existing dataset layout x append / replace; after every "
-              "rejected call the pre-existing dataset is re-opened from disk and compared with its previous content.")
+              "(i.e. how far the write gets before failing) x existing dataset layout (single file, hive, partitioned, "
+              "directories without summary files, REQUIRED columns) x append / replace / ParquetFile.write_row_groups "
+              "on a kept handle (frame or iterable of frames) / append='overwrite'; after every "
+              "rejected call the pre-existing dataset is re-opened from disk and compared with its previous content, "
+              "row order, schema, counts and file bytes, the kept handle is read, and a valid append is made.")
 LEVEL_NOTE = "Trusted: pandas frames as inputs. Six or 600 rows; three data columns; two row groups per offending frame."
 TECHNIQUE = "exhaustive enumeration of rejection kinds x failure positions x dataset states, re-read after the exception"
